@@ -82,6 +82,8 @@ let () =
             | "poison" -> Some (Poison (ni (int_of_string a.(1)), Array.length a > 2 && a.(2) = "a"))
             | "cksf" -> Some (CksF (ni (int_of_string a.(1))))
             | "relf" -> Some (RelF (ni (int_of_string a.(1))))
+            | "relstop" ->
+              Some (RelStop (ni (int_of_string a.(1)), (Array.length a > 3 && a.(3) = "d"), a.(2) = "p", None, Z0))
             | "crash" ->
               let fail = if Array.length a > 2 then Some (ni (int_of_string a.(2))) else None in
               Some (Crash (a.(1) = "p", fail, Z0))
